@@ -432,6 +432,56 @@ Example C10_approval_order_example :
   map fst (spav_round (rev v) []) = [1; 4; 3; 2]%positive.
 Proof. vm_compute. repeat split; reflexivity. Qed.
 
+(* ---- ballot order for the score family (Proofs/ScoreOrder_proofs.v): the aggregated scores of ScoreToSimpleVotes - every
+   configuration: sum / mean / lower median, the unscored-value rules, truncation, the minimum score count - end in the same
+   error, or are the same dictionary in another insertion order with == scores ([orelD Qeq]: distinct keys on both sides, every
+   candidate present in both or in neither, == values); hence ScoreVoting returns the same error or [res_equiv] selections *)
+From VL Require Import Proofs.ScoreOrder_proofs Proofs.MJOrder_proofs.
+Close Scope Q_scope.
+Close Scope Z_scope.
+Open Scope nat_scope.
+
+Theorem C10_score_to_simple_order : forall cf votes votes', Permutation votes votes' ->
+  orel (orelD Qeq) (score_to_simple cf votes) (score_to_simple cf votes').
+Proof. exact score_to_simple_order. Qed.
+
+Theorem C10_score_voting_order : forall cf votes votes' n, Permutation votes votes' ->
+  orel res_equiv (score_voting cf votes n) (score_voting cf votes' n).
+Proof. exact score_voting_order. Qed.
+
+(* MajorityJudgment, both tie-breakers (Proofs/MJOrder_proofs.v): the same error, or [res_equiv] selections *)
+Theorem C10_majority_judgment_order : forall plus cf votes votes' n, Permutation votes votes' ->
+  orel res_equiv (majority_judgment plus cf votes n) (majority_judgment plus cf votes' n).
+Proof. exact MJOrder_proofs.majority_judgment_order. Qed.
+
+Example C10_majority_judgment_order_example :
+  let cf := Build_score_cfg FMedianLow UNone 0%Z 0%Q 0%Q in
+  let v := [([(1%positive, 3#1); (2%positive, 2#1); (3%positive, 2#1)], 2%Z); ([(1%positive, 2#1); (2%positive, 3#1); (3%positive, 2#1)], 1%Z);
+            ([(1%positive, 2#1); (2%positive, 2#1); (3%positive, 1#1)], 2%Z)]%Q in
+  score_to_simple cf v = inl [(1%positive, 2#1); (2%positive, 2#1); (3%positive, 2#1)]%Q /\
+  majority_judgment true cf v 1 = inl [TieR [1; 2]]%positive /\ majority_judgment true cf (rev v) 1 = inl [TieR [1; 2]]%positive /\
+  majority_judgment false cf v 2 = inl [Cand 1; Cand 2]%positive /\ majority_judgment false cf (rev v) 2 = inl [Cand 1; Cand 2]%positive.
+Proof. vm_compute. repeat split; reflexivity. Qed.
+
+(* read off: every candidate has == aggregated scores in the two runs *)
+Theorem C10_score_to_simple_order_values : forall cf votes votes' agg agg', Permutation votes votes' ->
+  score_to_simple cf votes = inl agg -> score_to_simple cf votes' = inl agg' ->
+  NoDup (map fst agg) /\ NoDup (map fst agg') /\
+  forall c, match dget agg c, dget agg' c with Some x, Some y => (x == y)%Q | None, None => True | _, _ => False end.
+Proof.
+  intros cf votes votes' agg agg' H E E'. pose proof (score_to_simple_order cf votes votes' H) as R. rewrite E, E' in R. exact R.
+Qed.
+
+(* non-vacuity: the two orders give dictionaries in different orders whose values are == but not equal (2#4 vs 1#2: the
+   representative of a score is the first one inserted), and ties whose members are listed in different orders *)
+Example C10_score_order_example :
+  let cf := Build_score_cfg FMedianLow UNone 0%Z 0%Q 0%Q in
+  let v := [([(1%positive, 3#1); (3%positive, 2#4)], 1%Z); ([(1%positive, 1#2); (3%positive, 1#2)], 1%Z); ([(2%positive, 1#2)], 2%Z)]%Q in
+  score_to_simple cf v = inl [(1%positive, 1#2); (3%positive, 2#4); (2%positive, 1#2)]%Q /\
+  score_to_simple cf (rev v) = inl [(2%positive, 1#2); (1%positive, 1#2); (3%positive, 1#2)]%Q /\
+  score_voting cf v 1 = inl [TieR [1; 3; 2]]%positive /\ score_voting cf (rev v) 1 = inl [TieR [2; 1; 3]]%positive.
+Proof. vm_compute. repeat split; reflexivity. Qed.
+
 (* ================================================================ symmetric candidates (the closing sentence of the property)
    A symmetry of an input: an involution t of the candidates (t (t c) = c, e.g. a transposition) such that the renamed input is
    the same dictionary in another insertion order.  Composing order independence with renaming equivariance
@@ -615,3 +665,7 @@ Print Assumptions C10_symmetric_quota_distributor.
 Print Assumptions C10_symmetric_largest_remainder.
 Print Assumptions C10_symmetric_stv.
 Print Assumptions C10_symmetric_highest_averages.
+Print Assumptions C10_score_to_simple_order.
+Print Assumptions C10_score_voting_order.
+Print Assumptions C10_score_to_simple_order_values.
+Print Assumptions C10_majority_judgment_order.
